@@ -27,7 +27,7 @@ type c17Pair struct {
 	Acts []c17Act `json:"acts"`
 }
 type c17Case struct {
-	Kind string     `json:"kind"` // bind-ast | bind-str | actions | chords | mask | args | fuzz
+	Kind string     `json:"kind"` // bind-ast | bind-str | actions | chords | keys | color-str | mask | args | fuzz  (color, override: own types)
 	Ast  []c17Pair  `json:"ast,omitempty"`
 	Strs []string   `json:"strs,omitempty"`
 	Opt  *c17OptCase `json:"opt,omitempty"`
@@ -198,9 +198,33 @@ func c17ImplKeymaps(strs []string) string {
 	})
 }
 
+func c17NonASCII(s string) bool {
+	for i := 0; i < len(s); i++ {
+		if s[i] >= 0x80 {
+			return true
+		}
+	}
+	return false
+}
+
 func c17NoUnmodelled(s string) bool {
 	// change-preview-window's argument grammar (parsePreviewWindowImpl) is not modelled
 	return !strings.Contains(strings.ToLower(s), "change-preview-window")
+}
+
+// a bare `put` bound to a non-ASCII character key asks unicode.IsGraphic (Unicode tables, not modelled: the model
+// refuses it): the one disagreement this explains is "implementation accepts, model reports a user error" on an
+// input that has both a non-ASCII byte and `put`
+func c17PutUnicode(impl, model string, words ...string) bool {
+	if !strings.HasPrefix(impl, "ok") || model != "error" {
+		return false
+	}
+	for _, w := range words {
+		if c17NonASCII(w) && strings.Contains(strings.ToLower(w), "put") {
+			return true
+		}
+	}
+	return false
 }
 
 func c17CheckBindStrs(c *Ctx, cs c17Case, strs []string, nontrivial bool) string {
@@ -218,7 +242,9 @@ func c17CheckBindStrs(c *Ctx, cs c17Case, strs []string, nontrivial bool) string
 	}
 	if ok {
 		mv := c17Outcome(c.Model.Call(1701, Strs(strs)), c17KeymapOfVal)
-		if mv != impl {
+		if mv != impl && c17PutUnicode(impl, mv, strs...) {
+			rep.Count("bind:unmodelled-put-unicode")
+		} else if mv != impl {
 			rep.Disagreement(Disagreement{Kind: "corr", Name: "corr:C17.parse_keymap", Input: cs, Impl: impl, Expect: mv})
 		}
 	}
@@ -326,6 +352,70 @@ func c17CheckChords(c *Ctx, cs c17Case) {
 	rep.Count("chords:" + impl[:2])
 }
 
+// a list of key names: the SET of keys it denotes (spec, op 1706) against parseKeyChords, --expect and --toggle-sort
+func c17CheckKeys(c *Ctx, cs c17Case) {
+	rep := c.Rep
+	sv := c.Model.Call(1706, Strs(cs.Strs))
+	if len(sv.L) != 3 {
+		rep.Disagreement(Disagreement{Kind: "corr", Name: "corr:C17.keys_render", Input: cs, Impl: "", Expect: sv.String()})
+		return
+	}
+	rendered := sv.L[0].Str()
+	ok := sv.L[1].I == 1
+	want := "ok\n" + c17KeysOfVal(sv.L[2])
+	impl := c17Guard(func() string {
+		bs, err := fzf.VerifParseKeyChords(rendered)
+		if err != nil {
+			return "error"
+		}
+		return "ok\n" + c17KeysOfImpl(bs)
+	})
+	rep.ImplTraces++
+	rep.SpecChecks++
+	rep.Eval("keys:"+rendered, ok && len(cs.Strs) >= 1)
+	if c17NonASCII(rendered) {
+		rep.Count("keys:non-ascii")
+	}
+	if strings.HasPrefix(impl, "PANIC") {
+		rep.Disagreement(Disagreement{Kind: "spec", Name: "bind_total", Input: cs, Impl: impl, Expect: "keys or an error, never a panic"})
+		return
+	}
+	mv := c17Outcome(c.Model.Call(1705, Bytes(rendered)), c17KeysOfVal)
+	if mv != impl {
+		rep.Disagreement(Disagreement{Kind: "corr", Name: "corr:C17.parse_key_chords", Input: cs, Impl: impl, Expect: mv})
+	}
+	if !ok {
+		rep.Count("keys:not-wf")
+		return
+	}
+	rep.Count("keys:wf")
+	if impl != want {
+		rep.Disagreement(Disagreement{Kind: "spec", Name: "chords_roundtrip", Input: cs,
+			Impl: fmt.Sprintf("parseKeyChords(%q) = %q", rendered, impl), Expect: want})
+		return
+	}
+	// the same list as the value of --expect
+	ex := c17ImplParse(c, nil, false, nil, []string{"--expect=" + rendered})
+	rep.SpecChecks++
+	if ex.Status != "ok" || "ok\n"+ex.Expect != want {
+		rep.Disagreement(Disagreement{Kind: "spec", Name: "expect_roundtrip", Input: cs,
+			Impl: fmt.Sprintf("--expect=%s => %s %s %q", rendered, ex.Status, ex.Err, ex.Expect), Expect: want})
+	}
+	// one key as the value of --toggle-sort / the key of a --bind
+	if len(cs.Strs) == 1 && len(sv.L[2].L) == 1 {
+		k := c17KeyOfVal(sv.L[2].L[0])
+		ts := c17ImplParse(c, nil, false, nil, []string{"--toggle-sort", rendered})
+		rep.SpecChecks++
+		if strings.HasPrefix(rendered, "-") || strings.HasPrefix(rendered, "+") {
+			ts = c17ImplParse(c, nil, false, nil, []string{"--toggle-sort=" + rendered})
+		}
+		if w := k + " => toggle-sort(\"\")"; ts.Status != "ok" || ts.Keymap != w {
+			rep.Disagreement(Disagreement{Kind: "spec", Name: "toggle_sort_key", Input: cs,
+				Impl: fmt.Sprintf("--toggle-sort %s => %s %s %q", rendered, ts.Status, ts.Err, ts.Keymap), Expect: w})
+		}
+	}
+}
+
 func c17CheckMask(c *Ctx, cs c17Case) {
 	rep := c.Rep
 	s := cs.Strs[0]
@@ -386,6 +476,51 @@ var c17KeyNames = []string{"up", "down", "left", "right", "enter", "return", "sp
 	"preview-scroll-up", "preview-scroll-down", "f1", "f2", "f9", "f10", "f11", "f12", "ctrl-a", "ctrl-i", "ctrl-m", "ctrl-z",
 	"ctrl-alt-a", "ctrl-alt-q", "alt-a", "alt-Z", "alt-1", "alt-/", "a", "b", "z", "A", "Q", "0", "9", "/", "?", "~", "!", "@",
 	"(", ")", "[", "{", "<", "|", ";", "*", "-", "_", ".", " ", "'", "\""}
+
+// characters for key names outside ASCII: neighbours in the encoding (same lead byte), every encoded length, range ends
+var c17UniPool = []rune{'é', 'è', 'ö', 'É', 'ß', 'ÿ', 0xa0, 0x80, 'Ā', 'λ', 'я', 0x7ff, 0x800, '€', '한', '日', '本', 0xfffd, 0xffff, 0x10000, '😀', 0x10ffff}
+
+func c17Rune(r *RNG) rune {
+	if r.Chance(2, 3) {
+		return Pick(r, c17UniPool)
+	}
+	for {
+		var x rune
+		switch r.Intn(3) {
+		case 0:
+			x = rune(r.Range(0x80, 0x7ff))
+		case 1:
+			x = rune(r.Range(0x800, 0xffff))
+		default:
+			x = rune(r.Range(0x10000, 0x10ffff))
+		}
+		// surrogates are not characters; U+0130, U+017F, U+212A fold to ASCII letters in Go (outside the modelled domain)
+		if (x >= 0xd800 && x <= 0xdfff) || x == 0x130 || x == 0x17f || x == 0x212a {
+			continue
+		}
+		return x
+	}
+}
+
+// a key name with a character outside ASCII: the character itself, or alt- followed by it
+func c17UniKey(r *RNG) string {
+	ch := string(c17Rune(r))
+	switch r.Intn(5) {
+	case 0, 1:
+		return ch
+	case 2:
+		return Pick(r, []string{"ALT-", "Alt-", "aLT-"}) + ch
+	default:
+		return "alt-" + ch
+	}
+}
+
+func c17KeyName(r *RNG) string {
+	if r.Chance(1, 5) {
+		return c17UniKey(r)
+	}
+	return Pick(r, c17KeyNames)
+}
 
 var c17Pairs = [][2]int{{'(', ')'}, {'[', ']'}, {'{', '}'}, {'<', '>'}, {'~', '~'}, {'!', '!'}, {'@', '@'}, {'#', '#'},
 	{'$', '$'}, {'%', '%'}, {'^', '^'}, {'&', '&'}, {'*', '*'}, {';', ';'}, {'/', '/'}, {'|', '|'}}
@@ -457,9 +592,10 @@ func c17GenAst(r *RNG, wellFormed bool) []c17Pair {
 			nk = r.Range(2, 3)
 		}
 		for i := 0; i < nk; i++ {
-			k := Pick(r, c17KeyNames)
+			k := c17KeyName(r)
 			if !wellFormed && r.Chance(1, 6) {
-				k = Pick(r, []string{":", ",", "+", "alt-,", "alt-:", "alt-+", "", "xx", "ctrl-1", "f0", "F5", "CTRL-A", "Alt-x", "Space"})
+				k = Pick(r, []string{":", ",", "+", "alt-,", "alt-:", "alt-+", "", "xx", "ctrl-1", "f0", "F5", "CTRL-A", "Alt-x", "Space",
+					"ctrl-é", "alt-éé", "éé", "ctrl-alt-é", "fé", "alt-é-", "shift-é"})
 			}
 			p.Keys = append(p.Keys, k)
 		}
@@ -510,7 +646,7 @@ func c17GenAst(r *RNG, wellFormed bool) []c17Pair {
 	return ast
 }
 
-var c17Frags = []string{"a", "b", "ctrl-a", "tab", "enter", "f1", "alt-x", "alt-,", "alt-", ":", ":", ",", ",", "+", "+", "up", "down",
+var c17Frags = []string{"é", "alt-é", "alt-ö", "ALT-λ", "日", "a", "b", "ctrl-a", "tab", "enter", "f1", "alt-x", "alt-,", "alt-", ":", ":", ",", ",", "+", "+", "up", "down",
 	"toggle-down", "put", "pos", "execute", "execute-multi", "reload", "reload-sync", "preview", "preview-top", "change-header",
 	"change-header-label", "change-preview", "change-multi", "change-search", "transform", "transform-query", "unbind", "rebind",
 	"toggle-bind", "print", "print-query", "search", "become", "(", ")", "[", "]", "{", "}", "<", ">", "~", "!", "@", "#", "$", "%",
@@ -535,11 +671,35 @@ func c17GenChords(r *RNG) string {
 		switch r.Intn(6) {
 		case 0:
 			parts = append(parts, Pick(r, []string{"", ",", "alt-,", "ALT-,", ":", "+", "xx", "ctrl-", "ctrl-1", "f0", "ctrl-alt-1", "Ctrl-Alt-B", "F3", "alt-"}))
+		case 1:
+			parts = append(parts, c17UniKey(r))
 		default:
 			parts = append(parts, c17Mixcase(r, Pick(r, c17KeyNames)))
 		}
 	}
 	return strings.Join(parts, ",")
+}
+
+// a list of (mostly valid) key names for the keys check; names are repeated and re-spelt so that the SET matters
+func c17GenKeyList(r *RNG) []string {
+	n := r.Range(1, 4)
+	if r.Chance(1, 3) {
+		n = 1
+	}
+	ks := []string{}
+	for i := 0; i < n; i++ {
+		switch {
+		case len(ks) > 0 && r.Chance(1, 6):
+			ks = append(ks, c17Mixcase(r, Pick(r, ks)))
+		case r.Chance(1, 2):
+			ks = append(ks, c17UniKey(r))
+		case r.Chance(1, 12):
+			ks = append(ks, Pick(r, []string{"", "xx", "alt-", "ctrl-é", "alt-éé", "éé", "f0", "alt-é-"}))
+		default:
+			ks = append(ks, c17Mixcase(r, Pick(r, c17KeyNames)))
+		}
+	}
+	return ks
 }
 
 func c17ValidUTF8(ss ...string) bool {
@@ -564,6 +724,10 @@ func c17Run(c *Ctx, cs c17Case) {
 		c17CheckActions(c, cs)
 	case "chords":
 		c17CheckChords(c, cs)
+	case "keys":
+		c17CheckKeys(c, cs)
+	case "color-str":
+		c17CheckColorStr(c, cs)
 	case "mask":
 		c17CheckMask(c, cs)
 	case "args", "fuzz":
@@ -573,44 +737,55 @@ func c17Run(c *Ctx, cs c17Case) {
 	}
 }
 
-func runC17(c *Ctx) {
-	c.Rep.Rule = "bind expressions generated from the key/action grammar (all 17 delimiter forms, arguments biased to the delimiters, '+', ',', ':' and action-looking text) plus a malformed stream of grammar fragments; argument vectors over the modelled option vocabulary with =/separate/optional value forms, layered over $FZF_DEFAULT_OPTS and an options file; whole-vocabulary totality fuzz. Non-trivial = parse succeeded and (bind) at least one action argument / (options) at least two options given; distinct by JSON of the case"
-	if c.Replay != "" {
-		var cs c17Case
-		b, err := os.ReadFile(c.Replay)
-		if err == nil {
-			var w struct{ Input c17Case }
-			if json.Unmarshal(b, &w) == nil && w.Input.Kind != "" {
-				cs = w.Input
-			} else {
-				json.Unmarshal(b, &cs)
-			}
+// one case from JSON (a corpus file, or a replay file whose "input" is the case), dispatched on its kind
+func c17RunJSON(c *Ctx, b []byte) bool {
+	var w struct{ Input json.RawMessage }
+	if json.Unmarshal(b, &w) == nil && len(w.Input) > 0 {
+		b = w.Input
+	}
+	var k struct{ Kind string }
+	if json.Unmarshal(b, &k) != nil || k.Kind == "" {
+		return false
+	}
+	switch k.Kind {
+	case "override":
+		var mc c17MetaCase
+		if json.Unmarshal(b, &mc) != nil {
+			return false
 		}
-		if cs.Kind == "override" {
-			var w struct{ Input c17MetaCase }
-			var mc c17MetaCase
-			if json.Unmarshal(b, &w) == nil && w.Input.Kind != "" {
-				mc = w.Input
-			} else {
-				json.Unmarshal(b, &mc)
-			}
-			c17MetaCheck(c, mc)
-			return
+		c17MetaCheck(c, mc)
+	case "color":
+		var cc c17ColorCase
+		if json.Unmarshal(b, &cc) != nil {
+			return false
+		}
+		c17CheckColor(c, cc)
+	default:
+		var cs c17Case
+		if json.Unmarshal(b, &cs) != nil {
+			return false
 		}
 		c17Run(c, cs)
+	}
+	return true
+}
+
+func runC17(c *Ctx) {
+	c.Rep.Rule = "bind expressions generated from the key/action grammar (all 17 delimiter forms, arguments biased to the delimiters, '+', ',', ':' and action-looking text) plus a malformed stream of grammar fragments; key names with characters of every UTF-8 length (plain and alt-CHAR) in --bind, --expect, --toggle-sort, unbind(); --color specifications (base schemes, every colour name and spelling, colours, attributes, regular) spread over options file, environment and command line; argument vectors over the modelled option vocabulary with =/separate/optional value forms, layered over $FZF_DEFAULT_OPTS and an options file; whole-vocabulary totality fuzz. Non-trivial = parse succeeded and (bind) at least one action argument / (options) at least two options given; distinct by JSON of the case"
+	if c.Replay != "" {
+		if b, err := os.ReadFile(c.Replay); err == nil {
+			c17RunJSON(c, b)
+		}
 		return
 	}
 	for _, f := range corpusFiles(c) {
-		var cs c17Case
-		b, _ := os.ReadFile(f)
-		if json.Unmarshal(b, &cs) == nil && cs.Kind != "" {
-			c17Run(c, cs)
+		if b, err := os.ReadFile(f); err == nil && c17RunJSON(c, b) {
 			c.Rep.Count("corpus")
 		}
 	}
 	r := c.Rng
 	for i, n := 0, c.N(2500, 60000); i < n; i++ {
-		c17Run(c, c17Case{Kind: "bind-ast", Ast: c17GenAst(r, r.Chance(3, 4))})
+		c17RunS(c, c17Case{Kind: "bind-ast", Ast: c17GenAst(r, r.Chance(3, 4))})
 	}
 	for i, n := 0, c.N(1500, 40000); i < n; i++ {
 		ns := 1
@@ -626,10 +801,12 @@ func runC17(c *Ctx) {
 	for i, n := 0, c.N(500, 10000); i < n; i++ {
 		c17Run(c, c17Case{Kind: "actions", Strs: []string{strings.TrimLeft(c17GenStr(r), ":")}})
 		c17Run(c, c17Case{Kind: "chords", Strs: []string{c17GenChords(r)}})
+		c17RunS(c, c17Case{Kind: "keys", Strs: c17GenKeyList(r)})
 		c17Run(c, c17Case{Kind: "mask", Strs: []string{c17GenStr(r)}})
 	}
 	c17RunOpts(c)
 	c17RunMeta(c)
+	c17RunColor(c)
 }
 
 func init() { runners["C17"] = runC17 }
